@@ -297,6 +297,7 @@ func (c *ctx) bookUnits() []*unit {
 				}
 			}
 			c.sealedThenMutated(u, k, victims[0])
+			c.reusedDestination(u, k, victims[1])
 			for vi, v := range victims {
 				vid := mustID(v)
 				vHonest := c.consumedEnvelope(u, v, c.peerRecordFor(v, 10, 2), dom)
